@@ -1,9 +1,9 @@
 #!/bin/bash
 # usage: seed_batch.sh C01 C05 ...   -> evaluates every variant dir, writes eval.json, prints a summary
 for p in "$@"; do
-  for d in /tmp/seed_out/$p/v*; do
+  for d in ${SEED_DIR:-/tmp/seed_out}/$p/v*; do
     [ -f $d/patch.diff ] || continue
-    python3 /verif/tools/seed_eval.py /tmp/wt/$p $d > $d/eval.json 2>&1
+    python3 /verif/tools/seed_eval.py ${WT_DIR:-/tmp/wt}/$p $d > $d/eval.json 2>&1
     python3 - $p $d <<'PY'
 import json,sys
 p,d=sys.argv[1],sys.argv[2]
